@@ -389,6 +389,14 @@ let mem line =
             | Some c -> (match alloc_multiple_req w (n_of_int 8) c with
                          | None -> "none"
                          | Some r -> string_of_n (N.div r (n_of_int 8))))
+       | "growm" | "growc" ->
+           (* the same step for a map (16-byte pairs) and for the chunk table of an indefinite string (8-byte pointers) *)
+           let isz = n_of_int (if f = "growm" then 16 else 8) in
+           (match grow_capacity w a with
+            | None -> "none"
+            | Some c -> (match alloc_multiple_req w isz c with
+                         | None -> "none"
+                         | Some r -> string_of_n (N.div r isz)))
        | _ -> "BADCASE")
   | _ -> "BADCASE"
 
